@@ -8,6 +8,7 @@ every key list and every component list; nothing is bounded.  Helper lemmas: `Ja
 import Jap.Lemmas.Graph
 import Jap.Lemmas.GraphFlow
 import Jap.Gen.LinkBookkeeping
+import Jap.Gen.LinkFlowSrc
 
 namespace Jap.Props.C16
 open Jap.Graph
@@ -199,13 +200,15 @@ theorem C16_each_once (comps : List (String × Bool)) :
   rw [hsub.count, if_pos hmem]
 
 /-- C16_fed_value: when the sources are ready along the sequence, (1) every argument a constructor receives through
-    a link key is `goodValue` of a link with that target key — `F` applied to the sources' CONSTRUCTED objects or
-    their attributes; (2) every class component's constructor call carries a value for every link that feeds it. -/
+    a link is `goodValue` of a link one of whose target positions (`targetSlots`: the target key, or — for a target
+    inside a list of subclass specs — the position of that parameter in one of the items) it is: `F` applied to the
+    sources' CONSTRUCTED objects or their attributes; (2) every class component's constructor call carries a value
+    for EVERY target position inside it of every link that feeds it. -/
 theorem C16_fed_value (comps : List (String × Bool)) (h : SourcesReady links [] comps) :
     (∀ e ∈ (instantiateClasses F links order comps Cfg.parsed).log, ∀ kv ∈ e.2,
-        ∃ l ∈ links, l.target = kv.1 ∧ kv.2 = goodValue F l) ∧
+        ∃ l ∈ links, kv.1 ∈ targetSlots l ∧ kv.2 = goodValue F l) ∧
     (∀ d, (d, true) ∈ comps → ∃ e ∈ (instantiateClasses F links order comps Cfg.parsed).log, e.1 = d ∧
-        ∀ l ∈ links, feeds d l.target = true → ∃ v, (l.target, v) ∈ e.2) := by
+        ∀ l ∈ links, feeds d l.target = true → ∀ k ∈ targetSlots l, feeds d k = true → ∃ v, (k, v) ∈ e.2) := by
   obtain ⟨g, _, e⟩ := icLoop_good F links comps Cfg.parsed (Good.parsed F links) h
   have hl : (instantiateClasses F links order comps Cfg.parsed).log = (icLoop F links comps Cfg.parsed).log :=
     (applyLinks_frame F links order none _).2
@@ -223,6 +226,71 @@ theorem C16_fed_value_not_raw (l : FLink) :
   cases s.2 with
   | none => exact Or.inl rfl
   | some a => exact Or.inr ⟨a, rfl⟩
+
+/-! #### `set_target_value`: which positions a link's value is written to -/
+
+/-- C16_plain_target: a link into a parameter of a class group (target action not subclass-typed), a link whose target
+    IS a subclass-typed argument, and a link into a parameter that the given subclass spec has, write exactly the
+    target key; a link into a parameter the spec does not have writes nothing ("target not found"). -/
+theorem C16_plain_target (l : FLink) :
+    (l.tsub = false → targetSlots l = [l.target]) ∧
+    (l.tsub = true → l.target = l.tdest → targetSlots l = [l.target]) ∧
+    (∀ keys, l.tsub = true → l.target ≠ l.tdest → l.parent = .single keys →
+      targetSlots l = if keys.contains (childKey l) then [l.target] else []) := by
+  refine ⟨?_, ?_, ?_⟩
+  · intro h; simp [targetSlots, h]
+  · intro h1 h2; simp [targetSlots, h1, h2]
+  · intro keys h1 h2 h3; simp [targetSlots, h1, h2, h3]
+
+/-- C16_list_delivery: a link into a parameter of the classes of a LIST of subclass specs (`List[Base]` argument):
+    (a) EVERY item that has the parameter is written (`item[child_key] = value`), however many items lack it;
+    (b) nothing else is written: every written position is such an item, items without the parameter are untouched. -/
+theorem C16_list_delivery (l : FLink) (items : List (Option (List String)))
+    (hsub : l.tsub = true) (hne : l.target ≠ l.tdest) (hp : l.parent = .list items) :
+    (∀ j it, items[j]? = some it → itemHas (childKey l) it = true → itemKey l.tdest j (childKey l) ∈ targetSlots l) ∧
+    (∀ k ∈ targetSlots l, ∃ j it, items[j]? = some it ∧ itemHas (childKey l) it = true ∧ k = itemKey l.tdest j (childKey l)) := by
+  constructor
+  · intro j it hj hh
+    have hany : items.any (itemHas (childKey l)) = true :=
+      List.any_eq_true.mpr ⟨it, List.mem_of_getElem? hj, hh⟩
+    have := mem_listSlots_of l.tdest (childKey l) items 0 j it hj hh
+    simp only [Nat.zero_add] at this
+    simp [targetSlots, hsub, hne, hp, hany, this]
+  · intro k hk
+    simp only [targetSlots, hsub, hne, hp, if_true, if_false] at hk
+    by_cases hany : items.any (itemHas (childKey l)) = true
+    · simp only [hany, if_true] at hk
+      obtain ⟨j, it, h1, h2, h3⟩ := listSlots_mem l.tdest (childKey l) items 0 k hk
+      exact ⟨j, it, h1, h2, by simpa using h3⟩
+    · simp [hany] at hk
+
+/-- every position `targetSlots` names lies inside the component that holds the target action: the constructor call
+    of that component (and of every enclosing one) sees it -/
+theorem C16_slots_inside (l : FLink) (d : String) (hd : feeds d l.tdest = true) (hdt : feeds d l.target = true) :
+    ∀ k ∈ targetSlots l, feeds d k = true := by
+  intro k hk
+  unfold targetSlots at hk
+  by_cases hsub : l.tsub = true
+  · simp only [hsub, if_true] at hk
+    by_cases he : l.target = l.tdest
+    · simp only [he, if_true, List.mem_singleton] at hk; rw [hk]; exact hd
+    · simp only [he, if_false] at hk
+      cases hp : l.parent with
+      | gone => simp [hp] at hk
+      | single keys =>
+        simp only [hp] at hk
+        split at hk
+        · simp only [List.mem_singleton] at hk; rw [hk]; exact hdt
+        · simp at hk
+      | list items =>
+        simp only [hp] at hk
+        by_cases hany : items.any (itemHas (childKey l)) = true
+        · simp only [hany, if_true] at hk
+          obtain ⟨j, it, _, _, h3⟩ := listSlots_mem l.tdest (childKey l) items 0 k hk
+          rw [h3]; exact feeds_itemKey d l.tdest (childKey l) _ hd
+        · simp [hany] at hk
+  · simp only [hsub, Bool.false_eq_true, if_false, List.mem_singleton] at hk
+    rw [hk]; exact hdt
 
 /-- hypotheses under which the order theorems give readiness (all decidable on concrete lists): every graph key
     matches exactly the components it owns (`owner`: a class component owns itself, a parameter component `b.p0` is
@@ -252,8 +320,9 @@ theorem C16_fed_value_acyclic (setOrder dests seq : List String) (isClass : Stri
     (h : componentOrder (links.map FLink.toLink) setOrder dests = .ok seq)
     (hk : OwnedKeys links setOrder dests isClass owner) :
     let r := instantiateClasses F links order (seq.map fun d => (d, isClass d)) Cfg.parsed
-    (∀ e ∈ r.log, ∀ kv ∈ e.2, ∃ l ∈ links, l.target = kv.1 ∧ kv.2 = goodValue F l) ∧
-    (∀ d ∈ seq, isClass d = true → ∃ e ∈ r.log, e.1 = d ∧ ∀ l ∈ links, feeds d l.target = true → ∃ v, (l.target, v) ∈ e.2) ∧
+    (∀ e ∈ r.log, ∀ kv ∈ e.2, ∃ l ∈ links, kv.1 ∈ targetSlots l ∧ kv.2 = goodValue F l) ∧
+    (∀ d ∈ seq, isClass d = true → ∃ e ∈ r.log, e.1 = d ∧
+      ∀ l ∈ links, feeds d l.target = true → ∀ k ∈ targetSlots l, feeds d k = true → ∃ v, (k, v) ∈ e.2) ∧
     (∀ d ∈ seq, isClass d = true → (r.log.map (·.1)).count d = 1) := by
   have hready := C16_sources_ready links setOrder dests seq isClass owner h hk
   obtain ⟨h1, h2⟩ := C16_fed_value F links order _ hready
@@ -303,8 +372,166 @@ end flow
 
 /-- sensitivity of `C16_bookkeeping_fresh` to the extracted table: were the set written outside cfg (seed C16-2B),
     a call that fails after its first component would leave link 0 marked for the next call -/
-example : session ["parser._applied_instantiation_links"] Val.app [⟨[("a", none)], "b.p0", none⟩] ["a", "b"]
+example : session ["parser._applied_instantiation_links"] Val.app [(FLink.plain [("a", none)] "b.p0" none)] ["a", "b"]
     [("b", true), ("a", true)] [] [(Cfg.parsed, some 1), (Cfg.parsed, none)] = [[], [0]] := by decide
+
+/-! ### ties: the statements the models were transcribed from
+
+`Jap.Gen.LinkFlowSrc` is regenerated from /repo on every run (harness/extractors/link_flow_src.py: one string per
+statement, docstrings / imports / debug logging dropped).  Each theorem states the text the model was written against;
+an edit of any of these statements makes the theorem fail, i.e. breaks the tie and triggers the boosted search. -/
+
+/-- `ActionLink.set_target_value` as transcribed by `targetSlots` (the `any` guard of the list branch, the per-item test, the "target not found" return) -/
+theorem tie_set_target_value : Jap.Gen.LinkFlowSrc.setTargetValue = [
+  "def set_target_value(action: 'ActionLink', value: Any, cfg: Namespace, logger):",
+  "  target_key, target_action = action.target",
+  "  assert target_action",
+  "  if ActionTypeHint.is_subclass_typehint(target_action, all_subtypes=False, also_lists=True):",
+  "    if target_key == target_action.dest:",
+  "      target_action._check_type(value)",
+  "    else:",
+  "      parent = cfg.get(target_action.dest)",
+  "      child_key = target_key[len(target_action.dest) + 1:]",
+  "      if isinstance(parent, list) and any((isinstance(i, Namespace) and child_key in i for i in parent)):",
+  "        for item in parent:",
+  "          if child_key in item:",
+  "            item[child_key] = value",
+  "        return",
+  "      if target_key not in cfg:",
+  "        return",
+  "  cfg[target_key] = value"] := rfl
+
+/-- `ActionLink.apply_instantiation_links` as transcribed by `applyLinks`/`applyOne`/`wanted`/`linkValue` -/
+theorem tie_apply_instantiation_links : Jap.Gen.LinkFlowSrc.applyInstantiationLinks = [
+  "def apply_instantiation_links(parser, cfg, target=None, order=None):",
+  "  if not hasattr(parser, '_links_group'):",
+  "    return",
+  "  applied_key = '__applied_instantiation_links__'",
+  "  applied_links = cfg.pop(applied_key) if applied_key in cfg else set()",
+  "  link_actions = get_link_actions(parser, 'instantiate', skip=applied_links)",
+  "  if order and link_actions:",
+  "    link_actions = ActionLink.reorder(order, link_actions)",
+  "  for action in link_actions:",
+  "    target_key = action.target[0]",
+  "    if not (order or target_key == target or target_key.startswith(f'{target}.')) or is_nested_instantiation_link(action):",
+  "      continue",
+  "    source_objects = []",
+  "    for (source_key, source_action) in action.source:",
+  "      source_object = cfg[source_action.dest]",
+  "      if source_key == source_action.dest:",
+  "        source_objects.append(source_object)",
+  "      else:",
+  "        attr = split_key_leaf(source_key)[1]",
+  "        if ActionTypeHint.is_subclass_typehint(source_action) and (not hasattr(source_object, attr)):",
+  "          continue",
+  "        source_objects.append(getattr(source_object, attr))",
+  "    if not source_objects:",
+  "      continue",
+  "    else:",
+  "      if action.compute_fn is None:",
+  "        value = source_objects[0]",
+  "      else:",
+  "        value = action.call_compute_fn(source_objects)",
+  "    ActionLink.set_target_value(action, value, cfg, parser.logger)",
+  "    applied_links.add(action)",
+  "  if target:",
+  "    cfg[applied_key] = applied_links"] := rfl
+
+/-- `ActionLink.instantiation_order` as transcribed by `instantiationEdges`/`instantiationOrder` -/
+theorem tie_instantiation_order : Jap.Gen.LinkFlowSrc.instantiationOrder = [
+  "def instantiation_order(parser):",
+  "  actions = get_link_actions(parser, 'instantiate')",
+  "  if actions:",
+  "    targets = set()",
+  "    graph = DirectedGraph()",
+  "    for action in actions:",
+  "      target = re.sub('\\\\.init_args$', '', split_key_leaf(action.target[0])[0])",
+  "      for (_, source_action) in action.source:",
+  "        graph.add_edge(source_action.dest, target)",
+  "      targets.add(target)",
+  "    targets = sorted(targets, key=lambda x: len(split_key(x)))",
+  "    seen_targets = {targets[0]}",
+  "    for target in targets[1:]:",
+  "      parts = [x.replace('|', '.') for x in target.replace('init_args.', 'init_args|').split('.')]",
+  "      for num in range(len(parts) - 1):",
+  "        target_prefix = '.'.join(parts[:num + 1])",
+  "        if target_prefix in seen_targets:",
+  "          graph.add_edge(target, target_prefix)",
+  "      seen_targets.add(target)",
+  "    return graph.get_topological_order()",
+  "  return []"] := rfl
+
+/-- `ActionLink.reorder` as transcribed by `reorderLoop` -/
+theorem tie_reorder : Jap.Gen.LinkFlowSrc.reorder = [
+  "def reorder(order, components):",
+  "  ordered = []",
+  "  for key in order:",
+  "    after = []",
+  "    for component in components:",
+  "      if key == component.dest or component.dest.startswith(key + '.'):",
+  "        ordered.append(component)",
+  "      else:",
+  "        after.append(component)",
+  "    components = after",
+  "  return ordered + components"] := rfl
+
+/-- `DirectedGraph.add_edge` as transcribed by `addEdge` -/
+theorem tie_add_edge : Jap.Gen.LinkFlowSrc.addEdge = [
+  "def add_edge(self, source, target):",
+  "  for node in [source, target]:",
+  "    if node not in self.nodes:",
+  "      self.nodes.append(node)",
+  "  source_targets_list = self.edges_dict[self.nodes.index(source)]",
+  "  target_index = self.nodes.index(target)",
+  "  if target_index not in source_targets_list:",
+  "    source_targets_list.append(target_index)"] := rfl
+
+/-- `DirectedGraph.get_topological_order` as transcribed by `topoIdx` -/
+theorem tie_get_topological_order : Jap.Gen.LinkFlowSrc.getTopologicalOrder = [
+  "def get_topological_order(self):",
+  "  exploring = [False] * len(self.nodes)",
+  "  visited = [False] * len(self.nodes)",
+  "  order = []",
+  "  for source in range(len(self.nodes)):",
+  "    if not visited[source]:",
+  "      self.topological_sort(source, exploring, visited, order)",
+  "  return [self.nodes[n] for n in order]"] := rfl
+
+/-- `DirectedGraph.topological_sort` as transcribed by `visit`/`stepFn` -/
+theorem tie_topological_sort : Jap.Gen.LinkFlowSrc.topologicalSort = [
+  "def topological_sort(self, source, exploring, visited, order):",
+  "  exploring[source] = True",
+  "  for target in self.edges_dict[source]:",
+  "    if exploring[target]:",
+  "      raise ValueError(f'Graph has cycles, found while checking {self.nodes[source]} --> {self.nodes[target]}')",
+  "    else:",
+  "      if not visited[target]:",
+  "        self.topological_sort(target, exploring, visited, order)",
+  "  visited[source] = True",
+  "  exploring[source] = False",
+  "  order.insert(0, source)"] := rfl
+
+/-- the component loop of `ArgumentParser.instantiate_classes` as transcribed by `componentOrder`/`icLoop`/`instantiateClasses` -/
+theorem tie_component_loop : Jap.Gen.LinkFlowSrc.componentLoop = [
+  "components.sort(key=lambda x: -len(split_key(x.dest)))",
+  "order = ActionLink.instantiation_order(self)",
+  "components = ActionLink.reorder(order, components)",
+  "cfg = strip_meta(cfg)",
+  "for component in components:",
+  "  ActionLink.apply_instantiation_links(self, cfg, target=component.dest)",
+  "  if isinstance(component, ActionTypeHint):",
+  "    try:",
+  "      value, parent, key = cfg.get_value_and_parent(component.dest)",
+  "    except (KeyError, AttributeError):",
+  "      pass",
+  "    else:",
+  "      if value is not None:",
+  "        with parser_context(parent_parser=self, nested_links=ActionLink.get_nested_links(self, component), class_instantiators=self._get_instantiators()):",
+  "          parent[key] = component.instantiate_classes(value)",
+  "  else:",
+  "    with parser_context(load_value_mode=self.parser_mode, class_instantiators=self._get_instantiators()):",
+  "      component.instantiate_class(component, cfg)",
+  "ActionLink.apply_instantiation_links(self, cfg, order=order)"] := rfl
 
 /-! ### non-vacuity -/
 
@@ -343,24 +570,55 @@ example : instantiationOrder [⟨["y"], "x.x1"⟩, ⟨["z"], "y.y1"⟩, ⟨["x"]
     = .error (.cycle "z" "y") := rfl
 
 -- value flow on a three-component chain: ready, logged once each, fed values built from constructed objects
-example : SourcesReady [⟨[("c", none)], "a.p0", none⟩, ⟨[("a", some "at")], "b.init_args.p0", none⟩,
-    ⟨[("c", some "at"), ("a", none)], "b.init_args.p1", some "f2"⟩] [] [("c", true), ("a.p0", false), ("a", true), ("b", true)] := by
+example : SourcesReady [(FLink.plain [("c", none)] "a.p0" none), (FLink.plain [("a", some "at")] "b.init_args.p0" none),
+    (FLink.plain [("c", some "at"), ("a", none)] "b.init_args.p1" (some "f2"))] [] [("c", true), ("a.p0", false), ("a", true), ("b", true)] := by
   decide
-example : (instantiateClasses Val.app [⟨[("c", none)], "a.p0", none⟩, ⟨[("a", some "at")], "b.init_args.p0", none⟩]
+example : (instantiateClasses Val.app [(FLink.plain [("c", none)] "a.p0" none), (FLink.plain [("a", some "at")] "b.init_args.p0" none)]
     ["c", "a", "b"] [("c", true), ("a.p0", false), ("a", true), ("b", true)] Cfg.parsed).log
     = [("c", []), ("a", [("a.p0", .obj "c")]), ("b", [("b.init_args.p0", .attr (.obj "a") "at")])] := rfl
 -- the open finding in the flow model: walked in the order the code computes for `badLinks`, `root.child` is fed the
 -- raw, un-instantiated configuration of `a`, and `SourcesReady` fails
-example : (instantiateClasses Val.app [⟨[("a", none)], "root.child.init_args.p", none⟩, ⟨[("root", none)], "b.p0", none⟩]
+example : (instantiateClasses Val.app [(FLink.plain [("a", none)] "root.child.init_args.p" none), (FLink.plain [("root", none)] "b.p0" none)]
     ["root", "b", "a", "root.child"] [("root.child", true), ("root", true), ("b", true), ("a", true)] Cfg.parsed).log
     = [("root.child", [("root.child.init_args.p", .ns "a")]), ("root", [("root.child.init_args.p", .ns "a")]),
        ("b", [("b.p0", .obj "root")]), ("a", [])] := rfl
-example : ¬ SourcesReady [⟨[("a", none)], "root.child.init_args.p", none⟩, ⟨[("root", none)], "b.p0", none⟩] []
+example : ¬ SourcesReady [(FLink.plain [("a", none)] "root.child.init_args.p" none), (FLink.plain [("root", none)] "b.p0" none)] []
     [("root.child", true), ("root", true), ("b", true), ("a", true)] := by decide
 
+-- a target inside a LIST of subclass specs: three specs, the second one's class lacks the parameter; the first and the
+-- third are written, the second is untouched (C16_list_delivery applies: subclass-typed, target below the dest, a list)
+def exListLink : FLink :=
+  { sources := [("s", some "at")], target := "t.elems.init_args.p0", fn := some "f1", tdest := "t.elems", tsub := true,
+    parent := .list [some ["class_path", "init_args", "init_args.p0"], some ["class_path", "init_args", "init_args.q"],
+                     some ["class_path", "init_args", "init_args.p0", "init_args.p1"]] }
+example : childKey exListLink = "init_args.p0" := by decide
+example : targetSlots exListLink = ["t.elems.#0.init_args.p0", "t.elems.#2.init_args.p0"] := by decide
+example : exListLink.tsub = true ∧ exListLink.target ≠ exListLink.tdest := by decide
+example : (instantiateClasses Val.app [exListLink] ["s", "t.elems"] [("s", true), ("t.elems", true), ("t", true)] Cfg.parsed).log
+    = [("s", []),
+       ("t.elems", [("t.elems.#0.init_args.p0", .app "f1" [.attr (.obj "s") "at"]), ("t.elems.#2.init_args.p0", .app "f1" [.attr (.obj "s") "at"])]),
+       ("t", [("t.elems.#0.init_args.p0", .app "f1" [.attr (.obj "s") "at"]), ("t.elems.#2.init_args.p0", .app "f1" [.attr (.obj "s") "at"])])] := rfl
+example : SourcesReady [exListLink] [] [("s", true), ("t.elems", true), ("t", true)] := by decide
+example : ∀ k ∈ targetSlots exListLink, feeds "t" k = true :=
+  C16_slots_inside exListLink "t" (by decide) (by decide)
+-- no item has the parameter / the list is empty: nothing is written; a single spec without the parameter: nothing
+example : targetSlots { exListLink with parent := .list [some ["class_path", "init_args.q"], none] } = [] := by decide
+example : targetSlots { exListLink with parent := .list [] } = [] := by decide
+example : targetSlots { exListLink with parent := .single ["class_path", "init_args", "init_args.q"] } = [] := by decide
+example : targetSlots { exListLink with parent := .single ["class_path", "init_args", "init_args.p0"] } = ["t.elems.init_args.p0"] := by
+  decide
+example : targetSlots (FLink.plain [("c", none)] "a.p0" none) = ["a.p0"] := by decide
+
+-- open finding C16-list-below-subclass-dropped, inside the model: the list is an init_arg of a class given as a subclass
+-- spec, so `cfg.get(dest)` is a Namespace whose key paths stop at the list: nothing is written, whatever the items hold
+def exSubListLink : FLink :=
+  { sources := [("a", some "at")], target := "t.init_args.elems.init_args.p0", fn := none, tdest := "t", tsub := true,
+    parent := .single ["class_path", "init_args", "init_args.elems", "init_args.r", "init_args.r2"] }
+example : targetSlots exSubListLink = [] := by decide
+
 -- `OwnedKeys` is satisfiable by a real component list (parameter components `a.p0`, … owned by their class)
-def exLinks : List FLink := [⟨[("c", none)], "a.p0", none⟩, ⟨[("a", some "at")], "b.init_args.p0", none⟩,
-  ⟨[("c", some "at"), ("a", none)], "b.init_args.p1", some "f2"⟩]
+def exLinks : List FLink := [(FLink.plain [("c", none)] "a.p0" none), (FLink.plain [("a", some "at")] "b.init_args.p0" none),
+  (FLink.plain [("c", some "at"), ("a", none)] "b.init_args.p1" (some "f2"))]
 def exDests : List String := ["a.p0", "a.p1", "c", "b", "a"]
 def exOwner (d : String) : String := if d = "a.p0" ∨ d = "a.p1" then "a" else d
 def exIsClass (d : String) : Bool := d == "a" || d == "b" || d == "c"
